@@ -26,7 +26,7 @@ def op_label(op):
     if k == 'set_mode':
         return 'set_mode:' + op['mode']
     if k == 'perturb_arch':
-        return 'perturb_arch:' + op['style']
+        return 'perturb_arch:' + op['style'] + (':' + op['write'] if op.get('write', 'copy') != 'copy' else '')
     return k
 
 
